@@ -16,7 +16,7 @@
    order of alternatives) [tree_of] of the model's reading of the pattern, for which [direct_route_is_the_documented_meaning_of_the_pattern]
    gives the documented meaning, for every well-formed abstract pattern. *)
 From Coq Require Import String List Bool NArith.
-From Verif Require Import Reg.Followpos Reg.FollowposRe Reg.FollowposQuant Reg.FollowposPat.
+From Verif Require Import Reg.Followpos Reg.FollowposRe Reg.FollowposQuant Reg.FollowposPat Reg.FollowposAcc.
 From Verif Require Import Base.CharSet Reg.Dfa Reg.Regex Reg.EquivCheck Reg.Pattern Reg.PatSem Reg.PatCheck.
 From VerifGen Require Import RuneGo.
 Import ListNotations.
@@ -127,3 +127,10 @@ Theorem direct_route_is_the_documented_meaning_of_the_pattern :
     forall w, ~ In em w -> (Followpos.accepts (tree_of p) em w = true <-> doc_sem p w).
 Proof. exact direct_route_is_the_documented_meaning. Qed.
 Print Assumptions direct_route_is_the_documented_meaning_of_the_pattern.
+
+(* computeFollows as the code runs it - one pass that ADDS (position, followers) pairs at every concatenation and star -
+   yields, for every position of the tree, exactly the positions the model's [follow] finds by descending to it *)
+Theorem accumulated_follow_table_is_followpos :
+  forall n o p q, (o <= p < o + size n)%nat -> (In q (table_at (entries o n) p) <-> In q (follow o n p)).
+Proof. exact (proj1 accumulated_table_is_follow). Qed.
+Print Assumptions accumulated_follow_table_is_followpos.
